@@ -58,7 +58,7 @@ ASSUMPTIONS = [
 OWL_SAMEAS = "http://www.w3.org/2002/07/owl#sameAs"
 SKOS_EXACT = "http://www.w3.org/2004/02/skos/core#exactMatch"
 FOREIGN = "http://www.w3.org/2000/01/rdf-schema#seeAlso"
-UBASE = ["http://x.org/", "http://x.org/a_", "https://id.org/go:", "http://purl.org/obo/GO_", "http://x.org/a/", "urn:x:", "http://y.org/q?id=", "http://é.org/"]
+UBASE = ["http://x.org/", "http://x.org/a_", "https://id.org/go:", "http://purl.org/obo/GO_", "http://x.org/a/", "urn:x:", "http://y.org/q?id=", "http://é.org/", "http://purl.org/obo/", "http://x.org/a_b_"]
 IDS = ["1", "0001", "a/b", "x#y", "é", "A_1", ""]
 TYPES = list(CANON) + ["text/html", "application/rdf+xml", "text/plain", "application/ld+json", "image/png"]
 
@@ -131,7 +131,9 @@ def run_case(ctx, g, rng):
         u = ups.pop()
         us = tuple(ups.pop() for _ in range(rng.choice([0, 1, 1, 2])) if len(ups) > 2)
         recs.append(spec.Rec(f"p{i}", u, (f"P{i}",) if rng.random() < 0.4 else (), us, None))
-    conv = api.Converter([gen.mk_record(api, r) for r in recs])
+    conv, how = gen.build(api, recs, ":", rng)  # constructed, registered record by record, or grown through merges
+    S.counters[f"wl:build:{how}"] += 1
+    last = {}
     sp = spec.SpecConverter(recs, ":")
     w0 = {"records": [spec.rec_dict(r) for r in recs]}
     preds = rng.choice([None, None, None, [OWL_SAMEAS, SKOS_EXACT], SKOS_EXACT])
@@ -145,7 +147,11 @@ def run_case(ctx, g, rng):
         k = rng.randint(1, 3)
         uris = []
         for _ in range(k):
-            u = (rng.choice(allu) + rng.choice(IDS)) if rng.random() < 0.75 else "http://unknown.org/" + rng.choice(IDS[:3])
+            nested = [b for b in allu if any(a != b and b.startswith(a) for a in allu)]
+            if nested and rng.random() < 0.25:
+                u = rng.choice(nested) + rng.choice(["", "", "1"])  # a registered URI prefix inside another one, often bare
+            else:
+                u = (rng.choice(allu) + rng.choice(IDS)) if rng.random() < 0.75 else "http://unknown.org/" + rng.choice(IDS[:3])
             if valid_iri(u) and u not in uris:
                 uris.append(u)
         direction = rng.choice(["s", "o"])
@@ -185,6 +191,18 @@ def run_case(ctx, g, rng):
                 for x in sp.expand_all(c):
                     if valid_iri(x):
                         exp.append((u, x) if direction == "s" else (x, u))
+        # the property as stated: the library's own expand_all(compress(u)) on plain strings (unmonitored calls)
+        real = []
+        if pred in conf:
+            with probe.monitor_mode():
+                for u in uris:
+                    c = conv.compress(u)
+                    if c is None:
+                        continue
+                    for x in conv.expand_all(c) or []:
+                        if valid_iri(x):
+                            real.append((u, x) if direction == "s" else (x, u))
+        last["real"] = real
         cls = set()
         for u in uris:
             o = sp.uri_owner(u)
@@ -208,6 +226,9 @@ def run_case(ctx, g, rng):
         if not ok:
             violation(["C18"], monitor, "bindings-differ-from-expand_all-of-compress", leg=leg, query=q, expected=sorted(exp), observed=sorted(got),
                       configured_predicates=conf, **(extra or {}), **w0)
+        elif set(got) != set(last["real"]):
+            violation(["C18"], monitor, "bindings-differ-from-the-converter's-own-expand_all-of-compress", leg=leg, query=q,
+                      expected=sorted(last["real"]), observed=sorted(got), configured_predicates=conf, **(extra or {}), **w0)
 
     # (a) graph level
     for qi in range(8):
